@@ -1,8 +1,12 @@
 #!/bin/sh
-# Build the symbolic executor from /verif/engine, offline.
+# Build the symbolic executor from /verif/engine (offline) and validate it:
+# the repository's WPT vectors through the interpreter, and the IDNA stub contract against the real library.
 set -e
 export GOFLAGS=-mod=mod GOPROXY=off GOSUMDB=off GOTOOLCHAIN=local
 cd /verif/engine
-mkdir -p /verif/bin
+mkdir -p /verif/bin /verif/evidence /verif/replays
 go build -o /verif/bin/gosymex .
 echo "gosymex built"
+if [ -z "$VERIF_SKIP_SELFTEST" ]; then
+  /verif/bin/gosymex selftest | tail -4
+fi
